@@ -185,25 +185,24 @@ func (c *Controller[R]) OpenGate(cfg GateConfig[R]) (g *Gate[R], t Transfer, err
 		return g, t, err
 	}
 
-	var exists bool
+	// Find the region the gate belongs to before opening anything: a range that bridges
+	// two regions is refused (v1 optimization: one writer can only overlap with one
+	// region at any given time), and it must be refused without leaving a gate behind in
+	// the first of them - such a gate could take control and would never be released.
+	var target *region[R]
 	for _, reg := range c.regions {
-		// Check if there is an existing region that overlaps with that time range.
 		if reg.timeRange.OverlapsWith(cfg.TimeRange) {
-			// v1 optimization: one writer can only overlap with one region at any given time.
-			if exists {
+			if target != nil {
 				err = errors.Newf("encountered multiple control regions for time range %s", cfg.TimeRange)
 				c.L.DPanic(err.Error())
 				return nil, t, err
 			}
-			// If there is an existing region, we open a new gate on that region.
-			if g, t, err = reg.open(cfg); err != nil {
-				return
-			}
-			exists = true
+			target = reg
 		}
 	}
-	if exists {
-		return g, t, err
+	if target != nil {
+		// If there is an existing region, we open a new gate on that region.
+		return target.open(cfg)
 	}
 	var res R
 	if res, err = cfg.OpenResource(); err != nil {
